@@ -29,6 +29,12 @@ class PyRaise(Exception):
         self.exc = exc  # a real exception instance (may carry symbolic args)
 
 
+class StubAttributeError(AttributeError):
+    """a symbolic instance of a real class was asked for an instance attribute its contract stub does not carry: real objects get every attribute in
+    __init__, so this says the stub is incomplete for the code as it now is ("needs contract"), not that the code is wrong.  Still an AttributeError
+    for the interpreted program (try / except, hasattr); a path that *ends* with it is undecided, not a violation."""
+
+
 class LoopCarried(Exception):
     """a generic iteration read a non-scalar local written by another iteration."""
 
@@ -1443,7 +1449,9 @@ class Interp:
             ga = _lookup_class_attr(obj.cls, "__getattr__")
             if ga is not None:
                 return self._call_function(ga[0], [obj, attr], {}, defcls=ga[1])
-            raise PyRaise(AttributeError("%r object has no attribute %r" % (obj.cls.__name__, attr)))
+            has_init = isinstance(getattr(obj.cls, "__init__", None), types.FunctionType)
+            exc_cls = StubAttributeError if (has_init and getattr(obj.cls, "__module__", "").startswith("wntr")) else AttributeError
+            raise PyRaise(exc_cls("%r object has no attribute %r" % (obj.cls.__name__, attr)))
         f, dc = it
         if isinstance(f, types.FunctionType):
             return BoundMethod(f, obj, dc)
